@@ -947,6 +947,190 @@ func (j *judge) judgeRaceReports(cr caseRuns, rr runRecord) {
 	}
 }
 
+// ---------------------------------------------------------------------------
+// parallel engine, emulation: "with the parallel engine the functional results
+// remain identical". Kernels that use LDS (per work-group state inside the
+// emulation compute unit / ALU), one serial-engine run as the reference and
+// parallel-engine runs at several GOMAXPROCS, one of them under the -race build.
+
+func emuRuns() []runDesc {
+	return []runDesc{
+		{Family: "A", Delays: true, DelaySeed: 0xC05E1, GOMAXPROCS: 4, GOGC: "100"},
+		{Family: "P", Parallel: true, GOMAXPROCS: 4, GOGC: "100"},
+		{Family: "P", Parallel: true, Delays: true, DelaySeed: 0xC05E2, GOMAXPROCS: 16, GOGC: "10"},
+		{Family: "P", Parallel: true, GOMAXPROCS: 4, GOGC: "100", Race: true},
+	}
+}
+
+func emuParallelCanon() []caseRuns {
+	mk := func(name, wl, archName string, params map[string]int) caseRuns {
+		return caseRuns{Case: caseDesc{Name: name, Workload: wl, Params: params, Timing: false, Arch: archName, GPUs: []int{1}, RandSeed: 1}, Runs: emuRuns(), Canonical: true}
+	}
+	return []caseRuns{
+		mk("canon-emu-matrixtranspose-512-gcn3", "matrixtranspose", "", map[string]int{"width": 512}),
+		mk("canon-emu-matrixtranspose-256-cdna3", "matrixtranspose", "cdna3", map[string]int{"width": 256}),
+		mk("canon-emu-matrixmultiplication-128-gcn3", "matrixmultiplication", "", map[string]int{"x": 128, "y": 128, "z": 128}),
+	}
+}
+
+func emuParallelCases(c *vlib.Check) []caseRuns {
+	out := emuParallelCanon()
+	base := c.Rand("emu-parallel")
+	for i := 0; i < c.N(1, 6); i++ {
+		r := base.ForkN("case", i)
+		cd := caseDesc{Timing: false, GPUs: []int{1}, RandSeed: int64(1 + r.Intn(1000))}
+		switch r.Intn(5) {
+		case 0:
+			cd.Workload, cd.Params = "matrixtranspose", map[string]int{"width": pick(r, 128, 256, 1024)}
+			if r.Bool() {
+				cd.Arch = "cdna3"
+			}
+		case 1:
+			n := pick(r, 64, 128, 256)
+			cd.Workload, cd.Params = "matrixmultiplication", map[string]int{"x": n, "y": pick(r, 64, 128), "z": n}
+		case 2:
+			cd.Workload, cd.Params = "fft", map[string]int{"bytes": pick(r, 65536, 262144), "passes": 2}
+		case 3:
+			cd.Workload, cd.Params = "nbody", map[string]int{"particles": pick(r, 256, 1024), "iter": pick(r, 2, 4)}
+		default:
+			cd.Workload, cd.Params = "stencil2d", map[string]int{"row": pick(r, 64, 256), "col": pick(r, 64, 256), "iter": pick(r, 2, 5)}
+		}
+		ps := make([]string, 0, len(cd.Params))
+		for k, v := range cd.Params {
+			ps = append(ps, fmt.Sprintf("%s=%d", k, v))
+		}
+		sort.Strings(ps)
+		cd.Name = fmt.Sprintf("emu%d-%s[%s]-arch=%s", i, cd.Workload, strings.Join(ps, ","), cd.Arch)
+		out = append(out, caseRuns{Case: cd, Runs: emuRuns()})
+	}
+	return out
+}
+
+func (j *judge) judgeParallelEmu(cr caseRuns, recs []runRecord) {
+	c := j.c
+	c.Eval()
+	c.Count("cases", 1)
+	var ref *runRecord
+	for i := range recs {
+		c.Count("runs", 1)
+		if recs[i].OK {
+			c.Count("runs_completed", 1)
+			if recs[i].Job.Run.Race {
+				c.Count("runs_race_build", 1)
+			}
+			c.Distinct("workload", "emu:"+cr.Case.Workload)
+			if !recs[i].Job.Run.Parallel && ref == nil {
+				ref = &recs[i]
+			}
+		}
+	}
+	if ref == nil {
+		c.Inconclusive(fmt.Sprintf("case %s: the serial-engine emulation run ended without a record: %s", cr.Case.Name, firstLineOf(recs[0].Fail)))
+		return
+	}
+	c.Count("serial_emulation_reference_runs", 1)
+	for _, rr := range recs {
+		if !rr.Job.Run.Parallel {
+			continue
+		}
+		switch {
+		case rr.Fail == "watchdog":
+			c.Inconclusive(fmt.Sprintf("case %s parallel-engine run: watchdog fired", cr.Case.Name))
+			continue
+		case strings.HasPrefix(rr.Fail, "norace:"):
+			c.Inconclusive(rr.Fail)
+			continue
+		case !rr.OK:
+			c.Violation("C05|parallel-engine|emu|run-crashed|"+crashClass(rr.Fail),
+				fmt.Sprintf("case %s: the emulation completes under the serial engine but a parallel-engine run ended without a result record", cr.Case.Name),
+				map[string]any{"case": cr.Case, "runs": cr.Runs, "run": rr.Job.Run, "output_tail": rr.Fail})
+			continue
+		}
+		c.Count("parallel_emulation_runs_of_lds_kernels", 1)
+		c.Count("parallel_engine_buffer_comparisons", 1)
+		c.Count("buffers_hashed", int64(len(rr.Res.Buffers)))
+		c.Count("buffer_bytes_hashed", int64(rr.Res.BufBytes))
+		c.Distinct("gomaxprocs", strconv.Itoa(rr.Job.Run.GOMAXPROCS))
+		c.Nontrivial(cr.Case.Name + "|" + rr.Job.Run.hostKey())
+		if rr.Res.BufDigest != ref.Res.BufDigest {
+			c.Violation("C05|parallel-engine|emu|buffer-differs-from-serial-engine",
+				fmt.Sprintf("case %s: final device memory of an emulation run under the parallel engine differs from the serial-engine run: %s", cr.Case.Name, bufDiff(ref.Res, rr.Res)),
+				j.witness(cr, *ref, rr, nil))
+		}
+		if rr.Job.Run.Race && rr.Races > 0 {
+			j.judgeParallelRaces(cr, rr)
+		}
+	}
+}
+
+// judgeParallelRaces: a race report of a parallel-engine emulation run is a
+// violation when both racing accesses are made by mgpusim code (the innermost
+// non-runtime frame of each access is in github.com/sarchlab/mgpusim/v4/):
+// two simulated components touching the same host memory concurrently. Races
+// whose accesses are inside akita (its parallel engine, ports, id generator)
+// are counted, not judged.
+func (j *judge) judgeParallelRaces(cr caseRuns, rr runRecord) {
+	c := j.c
+	files, _ := filepathGlob(rr.Out.Dir + "/race.*")
+	for _, f := range files {
+		data, err := os.ReadFile(f)
+		if err != nil {
+			continue
+		}
+		for _, rep := range strings.Split(string(data), "==================") {
+			if !strings.Contains(rep, "WARNING: DATA RACE") {
+				continue
+			}
+			c.Count("parallel_emulation_race_reports", 1)
+			acc := reRaceAccess.FindAllStringSubmatch(rep, -1)
+			if len(acc) < 2 {
+				continue
+			}
+			var tops []string
+			for _, a := range acc[:2] {
+				top := ""
+				for _, m := range reRaceFunc.FindAllStringSubmatch(a[2], -1) {
+					fn := m[1]
+					if strings.HasPrefix(fn, "runtime.") || strings.HasPrefix(fn, "sync.") || strings.HasPrefix(fn, "sync/atomic.") || strings.HasPrefix(fn, "internal/") {
+						continue
+					}
+					top = fn
+					break
+				}
+				tops = append(tops, top)
+			}
+			if !strings.Contains(tops[0], "sarchlab/mgpusim/v4/") || !strings.Contains(tops[1], "sarchlab/mgpusim/v4/") {
+				c.Count("parallel_emulation_race_reports_outside_mgpusim_not_judged", 1)
+				c.Distinct("race_outside_mgpusim", tops[0]+" <-> "+tops[1])
+				continue
+			}
+			short := func(s string) string { return s[strings.LastIndex(s, "/")+1:] }
+			// key: the two objects (package.(*Type)) whose methods race; the
+			// methods themselves are named in the description and the witness
+			owner := func(s string) string {
+				s = short(s)
+				if i := strings.Index(s, ")."); i >= 0 {
+					return s[:i+1]
+				}
+				if i := strings.Index(s, "."); i >= 0 {
+					return s[:i]
+				}
+				return s
+			}
+			fns := []string{short(tops[0]), short(tops[1])}
+			sort.Strings(fns)
+			ks := []string{owner(tops[0]), owner(tops[1])}
+			sort.Strings(ks)
+			if len(rep) > 5000 {
+				rep = rep[:5000]
+			}
+			c.Violation("C05|parallel-engine|data-race|"+ks[0]+" <-> "+ks[1],
+				fmt.Sprintf("case %s: race detector, emulation under the parallel engine: %s and %s access the same memory without synchronisation", cr.Case.Name, fns[0], fns[1]),
+				map[string]any{"case": cr.Case, "runs": cr.Runs, "run": rr.Job.Run, "race_report": rep})
+		}
+	}
+}
+
 // judgeRepetitions compares the 2nd.. execution of a simulation inside one
 // process with the first execution in that process (which itself is compared
 // with the fresh-process runs of the case like every family-A run). Every
@@ -1062,14 +1246,19 @@ func parentMain() {
 	bins := newBinaries()
 
 	cases, par := buildCases(c)
+	emu := emuParallelCases(c)
 	if replay != nil {
-		cases, par = []caseRuns{*replay}, nil
+		cases, par, emu = []caseRuns{*replay}, nil, nil
+		if !replay.Case.Timing {
+			cases, emu = nil, []caseRuns{*replay}
+		}
 	}
 	if os.Getenv("C05_ONLY_CANONICAL") != "" {
 		cases, par = canonicalCases(c.N(2, 3), c.N(2, 5)), nil
+		emu = emuParallelCanon()
 	}
 	needRace := false
-	for _, cr := range cases {
+	for _, cr := range append(append([]caseRuns{}, cases...), emu...) {
 		for _, r := range cr.Runs {
 			needRace = needRace || r.Race
 		}
@@ -1079,7 +1268,7 @@ func parentMain() {
 	}
 
 	type jobRef struct{ ci, ri int }
-	all := append(append([]caseRuns{}, cases...), par...)
+	all := append(append(append([]caseRuns{}, cases...), par...), emu...)
 	recs := make([][]runRecord, len(all))
 	var plainJobs, raceJobs []jobRef
 	for ci, cr := range all {
@@ -1121,6 +1310,9 @@ func parentMain() {
 	for pi, cr := range par {
 		j.judgeCase(cr, recs[len(cases)+pi], serialRef[cr.Case.Name])
 	}
+	for ei, cr := range emu {
+		j.judgeParallelEmu(cr, recs[len(cases)+len(par)+ei])
+	}
 	// literal samples
 	for ci, cr := range cases {
 		if ci < 4 {
@@ -1160,6 +1352,7 @@ func parentMain() {
 		// contention at the DRAM controllers was observed, not hoped for
 		"mi300a_dram_cycles_with_2_or_more_pending": int64(c.N(8000, 20000)), "mi300a_dram_cycles_with_2_or_more_pending_same_bank": int64(c.N(150, 400)),
 		"mi300a_contended_case_executions_with_same_bank_contention": int64(c.N(8, 10)),
+		"parallel_emulation_runs_of_lds_kernels":                     int64(c.N(10, 24)),
 		"r9nano_l2_cycles_with_2_or_more_pending":                    int64(c.N(5000, 50000)),
 		"observed_d2h_completed_on_flush_reply":                      int64(c.N(8, 60)), "observed_d2h_on_flush_reply_with_stall": int64(c.N(4, 30)),
 	}
